@@ -1023,6 +1023,107 @@ func Plan(prop, tier string, seed uint64) []RunConfig {
 			budget--
 		}
 	}
+	// families that every run must contain whatever the draws above came to
+	// (appended behind everything else, from a PRNG of their own: the cases
+	// above do not depend on them)
+	return append(out, fixedFamilies(prop, thorough, simctl.NewRand(simctl.Mix(seed, 0xf1c5ed)))...)
+}
+
+// fixedFamilies are small case families enumerated in every run instead of
+// being left to the draw: kinds of source object, transient error kinds, poker
+// boundary contents at large lengths.
+func fixedFamilies(prop string, thorough bool, r *simctl.Rand) []RunConfig {
+	var out []RunConfig
+	reps := 1
+	if thorough {
+		reps = 12
+	}
+	switch prop {
+	case "C10":
+		for rep := 0; rep < reps; rep++ {
+			for _, kind := range []string{"fifo", "writerto", "bytes", "file", "pipe", "bufio", "func", "valuestruct", "seeker", "locker"} {
+				for _, w := range []string{WPeriod, WPeriodFast, WPowerOn, WFactoryFast} {
+					W := workerChoices[r.Intn(len(workerChoices))]
+					c := RunConfig{Prop: prop, Workflow: w, Workers: W, Policy: genPolicy(r, estSteps(w, W)), Stream: prfStream(r), Chunk: ChunkSpec{Kind: "full"},
+						Fault: FaultSpec{Kind: "none"}, Runners: RunnerSpec{Mode: "scripted", Seed: r.Uint64()}, ReadYield: 1, Carrier: kind, Note: "every-carrier-kind"}
+					switch kind {
+					case "func", "valuestruct", "seeker", "locker":
+						c.Chunk = chunkFor0(w, r)
+						c.ReadYield = []int{7, 50, 400}[r.Intn(3)]
+					case "bufio":
+						c.CarrierOffset = r.Intn(6)
+					case "bytes", "file":
+						c.CarrierOffset = []int{0, 1250, 4096}[r.Intn(3)]
+						c.Stream.EOFData = false
+					case "writerto":
+						c.CarrierOffset = r.Intn(4)
+						c.Stream.EOFData = false
+					default:
+						c.Stream.EOFData = false
+					}
+					out = append(out, c)
+				}
+			}
+		}
+	case "C08":
+		// one transient failure of every error kind, in the middle of a sample
+		// and on a sample boundary: the sequential workflow stops with (false,
+		// err), so must the Fast one
+		for rep := 0; rep < reps; rep++ {
+			for _, w := range []string{WPeriodFast, WPowerOnFast, WFactoryFast} {
+				wi := Info(w)
+				for _, kind := range []string{"temporary", "wrapeof", "listerr", "custom", "partial"} {
+					for pos := 0; pos < 2; pos++ {
+						W := workerChoices[r.Intn(len(workerChoices))]
+						at := int64(r.Intn(wi.Samples)) * int64(wi.SampleBytes)
+						if pos == 1 {
+							at += int64(1 + r.Intn(wi.SampleBytes-1))
+						}
+						out = append(out, RunConfig{Prop: prop, Workflow: w, Workers: W, Policy: genPolicy(r, estSteps(w, W)),
+							Stream: prfStream(r), Chunk: ChunkSpec{Kind: "full"}, Fault: FaultSpec{Kind: kind, At: at, Sticky: false},
+							Runners: RunnerSpec{Mode: "scripted", Seed: r.Uint64()}, ReadYield: 1, Note: "transient-source-error-every-kind"})
+					}
+				}
+			}
+		}
+	case "C11":
+		// poker-boundary contents at large lengths, under worker counts that do
+		// not divide them (what is split over workers leaves a remainder there)
+		for rep := 0; rep < reps; rep++ {
+			for k, nb := range []int{65535, 65536, 65537, 98304, 131072, 196608, 262144, 262145, 524288, 1 << 20, 1<<20 + 1000} {
+				for side := 0; side < 2; side++ {
+					c := singleCase(prop, nb, r)
+					c.Workers = []int{3, 5, 6, 7, 12, 16, 24}[(k+side+rep)%7]
+					c.Chunk = ChunkSpec{Kind: "full"}
+					c.Stream = StreamSpec{Kind: "pokeredge", Seed: r.Uint64(), Bias: side, Tail: r.Intn(3), TailSd: r.Uint64()}
+					c.Prelude, c.Companion, c.Carrier, c.CarrierOffset = nil, nil, "", 0
+					c.Note = "poker-p-next-to-alpha-large"
+					out = append(out, c)
+				}
+			}
+			// an earlier, longer request was cut short by a failing source; then
+			// two calls overlap (the observed one on a healthy source read in two
+			// parts, a companion on a stuck one): whatever the failed call left
+			// behind - a buffer given back twice, say - is shared by the two
+			for _, nb := range []int{16, 40, 64, 160, 1280, 4096} {
+				for k := 0; k < 6; k++ {
+					c := singleCase(prop, nb, r)
+					pn := 2*nb + 64
+					c.Stream = prfStream(r)
+					c.Chunk = ChunkSpec{Kind: "fixed", K: 1 + nb/2}
+					c.ReadYield = 1
+					c.Carrier, c.CarrierOffset = "", 0
+					c.Policy = simctl.Policy{Kind: "random", Seed: r.Uint64()}
+					c.Workers = 4
+					c.Prelude = []PreludeSpec{{Workflow: WSingle, NumByte: pn, Stream: StreamSpec{Kind: "prf", Seed: r.Uint64()},
+						Fault: FaultSpec{Kind: []string{"eof", "custom"}[k%2], At: int64(r.Intn(pn)), Sticky: true}}}
+					c.Companion = []PreludeSpec{{Workflow: WSingle, NumByte: []int{nb, nb + 8, pn}[k%3], Stream: StreamSpec{Kind: "const", Byte: []int{0, 0xff}[k%2]}}}
+					c.Note = "failed-earlier-call-then-overlapping-calls"
+					out = append(out, c)
+				}
+			}
+		}
+	}
 	return out
 }
 
